@@ -59,10 +59,14 @@ func asString(values ...Value) String {
 	for i := range str {
 		str[i] = -1
 	}
+	holes := len(str)
 	for _, t := range tuples {
+		if str[t.at-minAt] < 0 {
+			holes--
+		}
 		str[t.at-minAt] = t.char
 	}
-	return String{s: str, offset: minAt, holes: len(str) - n}
+	return String{s: str, offset: minAt, holes: holes}
 }
 
 // AsString returns String and the empty set as String or false otherwise.
